@@ -16,7 +16,7 @@ import gc
 import json
 import os
 
-from dst import kernel, sandbox as sbx, seams, cluster
+from dst import kernel, sandbox as sbx, seams, cluster, runner
 from dst.kernel import Sim, HarnessError, stream, canon, digest, H
 from checks.c12 import parse_results_bytes, records_to_model
 
@@ -50,7 +50,7 @@ def precondition(I, N, C, T):
 # ---------------------------------------------------------------------------
 # execution
 # ---------------------------------------------------------------------------
-def execute(plan, keep_events=False):
+def execute_here(plan, keep_events=False):
     sim = Sim(plan['seed'], keep_events=keep_events)
     sb = sbx.Sandbox(sim, bufsize=plan.get('bufsize', 8192))
     violations = []
@@ -84,7 +84,7 @@ def execute(plan, keep_events=False):
     ledger = seams.Ledger(sim)
     node_results = {}
     sb.install()
-    seams.install_entropy()
+    seams.install_entropy(plan['seed'])
     seams.install_clock(sim.clock)
     ledger.install()
     cl.install()
@@ -100,7 +100,8 @@ def execute(plan, keep_events=False):
                     cl.node_call(data_dir, T, N, j, C)
                     node_results[(0, j)] = 'returned'
                 except Exception as e:
-                    node_results[(0, j)] = [type(e).__name__, str(e)[:200]]
+                    node_results[(0, j)] = [type(e).__name__,
+                                            sb.scrub(e)[:200]]
                 finally:
                     kernel.set_current(None)
         else:
@@ -138,7 +139,7 @@ def execute(plan, keep_events=False):
                         killed.add(j)
                     else:
                         node_results[(rnd, j)] = [type(t.exc).__name__,
-                                                  str(t.exc)[:200]]
+                                                  sb.scrub(t.exc)[:200]]
                 killed |= {r['node'] for r in cl.launched
                            if r['round'] == rnd and r.get('proc') is not None
                            and r['proc'].dead}
@@ -170,6 +171,11 @@ def execute(plan, keep_events=False):
     }
 
 
+def execute(plan, **kw):
+    """One plan = one simulated process image: run in a forked child."""
+    return runner.isolated(execute_here, plan, **kw)
+
+
 def judge(plan, sim, sb, cl, ledger, node_results, violations, states, info,
           data_dir, inputs):
     I, N, C, T = (plan['n_inputs'], plan['n_nodes'], plan['n_cores'],
@@ -187,7 +193,7 @@ def judge(plan, sim, sb, cl, ledger, node_results, violations, states, info,
     for rec in cl.launched:
         if rec['exc'] is not None:
             violate('task_raised', {'exc': rec['exc'][0],
-                                    'msg': rec['exc'][1]})
+                                    'msg': sb.scrub(rec['exc'][1])})
     if violations:
         return
     # the launch plan of the last round in which each node ran
